@@ -30,6 +30,8 @@ LAWS = [
     "a sum is defined only if its body is defined at every summation point, in particular at the current values",
     "a sum whose body is replaced by a pointwise equal expression is unchanged (the replacing callee's contract holds in every environment)",
     "a pointwise denotation-preserving map over a sequence preserves its product; flattening nested products preserves it",
+    "class invariants of frozen dataclasses (established by __post_init__, assumed for objects received as arguments): a Fraction's "
+    "denominator is not the Zero object; a Sum's ranges are a non-empty set of plain variables",
 ]
 
 
@@ -303,6 +305,12 @@ def expr_attr(ex, base: VExpr, attr):
         return VESeq(T.regs(T.expressions(t)))
     if attr == "ranges":
         r = T.ranges(t)
+        # class invariant established by Sum.__post_init__ (frozen dataclass; proved where a Sum is constructed, assumed for Sum
+        # objects that come in as arguments): the ranges are a non-empty frozenset of plain variables
+        L = ex.L
+        ex.assume(z3.Implies(T.cls(t) == T.CL["Sum"], L.And(
+            L.forall(1, lambda x: L.Implies(z3.Select(r, x), L.And(L.Not(L.is_cf(x)), L.Not(L.is_intervention(x))))),
+            L.exists(1, lambda x: z3.Select(r, x)))))
         v = VSet(lambda x: z3.Select(r, x), owned=False, kind="frozenset")
         v.frozen = True
         v.array = r
